@@ -93,7 +93,7 @@ Definition run_rxpool (args : list bytes) : list bytes :=
   end.
 
 Definition run_bufio (comp : bytes) (args : list bytes) : option (list bytes) :=
-  if (beq comp (s2b "rxstream") || beq comp (s2b "rxstream-c08"))%bool then Some (run_rxstream args)
+  if (beq comp (s2b "rxstream") || beq comp (s2b "rxstream-c08") || beq comp (s2b "rxtcpwire"))%bool then Some (run_rxstream args)
   else if (beq comp (s2b "rxudp") || beq comp (s2b "rxudp-c08"))%bool then Some (run_rxudp args)
   else if beq comp (s2b "rxwire") then Some (run_rxudp_gen true args)
   else if beq comp (s2b "rxpool") then Some (run_rxpool args)
@@ -161,7 +161,7 @@ Definition judge_rxpool (args : list bytes) : list bytes :=
   end.
 
 Definition judge_bufio (comp : bytes) (args : list bytes) : option (list bytes) :=
-  if beq comp (s2b "rxstream") then Some (judge_rxstream false args)
+  if (beq comp (s2b "rxstream") || beq comp (s2b "rxtcpwire"))%bool then Some (judge_rxstream false args)
   else if beq comp (s2b "rxstream-c08") then Some (judge_rxstream true args)
   else if beq comp (s2b "rxudp") then Some (judge_rxudp false args)
   else if beq comp (s2b "rxudp-c08") then Some (judge_rxudp true args)
